@@ -308,6 +308,10 @@ class HeapMixin:
 
     def seq_elem(self, seq: SymSeq, idx):
         el = seq.e[idx]
+        for (sq, elem_at) in self.ctx.seq_defs:
+            if z3.eq(sq, seq.e):
+                iz = idx if z3.is_expr(idx) else z3.IntVal(idx)
+                self.ctx.assume(z3.Implies(z3.And(iz >= 0, iz < z3.Length(sq)), el == elem_at(iz)), "pointwise definition")
         for (sq, pred) in self.ctx.seq_facts:
             if z3.eq(sq, seq.e):
                 self.ctx.assume(pred(el), "element fact")
